@@ -94,12 +94,7 @@ mod verif {
         let ev = verif_any_uuid();
         kani::assume(validate_event_id(ev, uuid_to_partition_hash(key)));
         assert!(uuid_to_partition_hash(ev) == uuid_to_partition_hash(key), "validated event id embeds the key's hash");
-        let part: u16 = kani::any();
-        let b: u16 = kani::any();
-        kani::assume(b > 0);
-        assert!(partition_id_to_bucket(part, b) == part % b, "helper agrees with `partition_id % total_buckets`");
-        assert!(partition_id_to_bucket(part, b) < b);
-        kani::cover!(b > 1 && part > b, "reachable");
+        kani::cover!(uuid_to_partition_hash(key) == 0x1234, "reachable");
     }
 
     fn any_events(n: usize) -> SmallVec<[NewEvent; 4]> {
